@@ -72,8 +72,10 @@ def describe(b: dict) -> str:
     return "%s %s %s %s" % (c, b["enum"], m, x)
 
 
-def validate(traces: list, work: str, tables_file: str, name: str):
-    return E.validate("Trace_EnumTables", {"traces": traces}, work=work, name=name, env={"TABLES_FILE": tables_file}, timeout=900, heap="4g")
+def validate(traces: list, work: str, tables_file: str, name: str, cross: list | None = None):
+    """(verdicts, summary, tlc); the cross-site read records are judged in the same run (XVERDICT lines -> tlc.printed)."""
+    return E.validate("Trace_EnumTables", {"traces": traces, "cross": cross or []}, work=work, name=name, env={"TABLES_FILE": tables_file},
+                      timeout=900, heap="4g")
 
 
 def selftest(work: str, tables: dict, base_bad: list, traces: list, tables_file: str):
@@ -164,7 +166,25 @@ def main() -> int:
     traces = E.pmap(D.run_trace, jobs, procs=16, chunk=4)
     if do_selftest:
         selftest(work, tables, bad, traces, os.path.join(work, "tables.json"))
-    verdicts, summ, _ = validate(traces, work, tables_file, "obs")
+    # every token two enumerations share, read at one attribute and then at the other - in ONE process, so that whatever a read
+    # remembers is there for the next (spec/EnumTables.tla CrossHolds)
+    cross = E.pmap(D.cross_reads, [None], procs=1)[0] if not rp else []
+    if do_selftest and cross:
+        fake = [dict(cross[0], gotType="MSO_SOMETHING_ELSE"), cross[0]]
+        _, _, tl = validate([], work, tables_file, "cross_selftest", fake)
+        xs = tl.printed("XVERDICT")
+        ok = len(xs) == 1 and xs[0]["k"] == 1
+        print("SELFTEST %s: a cross-site read recorded with another enumeration's type -> %s" % ("ok" if ok else "FAILED", str(xs)[:200]))
+        if not ok:
+            raise E.MachineryError("cross-site selftest failed")
+    verdicts, summ, tlc_obs = validate(traces, work, tables_file, "obs", cross)
+    if not rp and len(cross) < 20:
+        raise E.MachineryError("vacuous: %d cross-site reads" % len(cross))
+    for xv in tlc_obs.printed("XVERDICT"):
+        r = xv["rec"]
+        rep.reject("ReadIsOfTheAttributesEnumeration@%s[%s]" % (r["site"], r["tok"]),
+                   {"module": "EnumTables", "kind": "cross", "record": r},
+                   "%s=%r read after %s: got %s %r, the attribute's enumeration is %s" % (r["site"], r["tok"], r["first"], r["gotType"], r["gotTok"], r["enum"]))
 
     # ---- verdicts
     groups: dict = {}
